@@ -223,7 +223,9 @@ def observe_function(modname, fname, arg, clusters_to_list):
 def stored_names(root, clusters, cluster, qn, arg_hash):
     """the names inside the stored memento JSON of (qn, arg_hash), read from disk without the library's
     decoder: own, invocations, dependencies as [qualified name, parameterNames, number of positional args]"""
-    d = os.path.join(cluster_dir(root, clusters, cluster), "m", qn.replace(":", "%3A"))
+    import twosigma.memento.storage_filesystem as sfs
+    # the directory name is whatever the code's own escaping makes of the qualified name
+    d = os.path.join(cluster_dir(root, clusters, cluster), "m", sfs._FilesystemDataSource._escape_key(None, qn))
     link = os.path.join(d, arg_hash + ".memento.json.link")
     with open(link) as f:
         target = f.read()
